@@ -265,10 +265,9 @@ func (cs *clientSession) keepAlive() error {
 	cs.Unlock()
 	cs.sessions.Unlock()
 
-	tickTime := timeout / 10
-	if tickTime < 2*time.Second {
-		tickTime = 2 * time.Second
-	}
+	// Heartbeat at a tenth of the session timeout, but not more often than every 2 seconds, unless
+	// the timeout is so short that a few heartbeats would not fit into it otherwise
+	tickTime := max(timeout/10, min(2*time.Second, timeout/4))
 
 	ticker := time.NewTicker(tickTime)
 	defer ticker.Stop()
